@@ -348,6 +348,14 @@ def full_match_rule(ctx, eng: str, rule: str = "R4") -> None:
     p_ver = fn.params[0]
     mcalls = [c for c in ast.walk(fn.node) if isinstance(c, ast.Call) and isinstance(c.func, ast.Attribute) and c.func.attr in ("match", "fullmatch", "search")
               and unparse(c.func.value).endswith("regexp")]
+    reassigned = [st for st, tg, _v in shapes.iter_assigns(fn.node) if unparse(tg) == p_ver]
+    if reassigned:
+        ctx.bad(rule, f"{fq}: the version string is altered before it is (re-)matched",
+                f"`{unparse(reassigned[0])[:70]}`: a text other than the one given (a tag, --set-version, the config value) is matched against the pattern, "
+                f"so a string that does not match the pattern in full is accepted - e.g. the tag `v2.0.0` for the pattern MAJOR.MINOR.PATCH",
+                loc=fn.loc(reassigned[0]), witness={"pattern": "MAJOR.MINOR.PATCH", "tag": "v2.0.0"}, what=f"{fq}: the given string itself is matched")
+        if len(mcalls) != 1:
+            return
     ctx.require(len(mcalls) == 1, f"{fq}: expected one regexp match call")
     mc = mcalls[0]
     ctx.check(rule, unparse(mc.args[0]) == p_ver and mc.func.attr in ("match", "fullmatch"), f"{fq}: matches `{p_ver}` from its first character",
